@@ -33,8 +33,9 @@ def replay_request(case):
     mds = [env.sp_metadata(entity_id=env.SP2, keys=(('kIdp2', 'signing'),))]
     if scn['layout'] != 'absent':
         mds.append(env.sp_metadata(entity_id=env.SP, keys=[(k, None if u == 'none' else u) for k, u in case['descriptors']]))
-    idp = spc.idp_for(metadata=mds, top_only_use_keys_in_metadata=scn['flag'],
-                      endpoints={'single_sign_on_service': [(c10.IDP_SSO['redirect'], env.BINDING_REDIRECT), (c10.IDP_SSO['post'], env.BINDING_POST)]})
+    extra = {'want_authn_requests_only_with_valid_cert': True} if scn.get('certOnly') else {}
+    idp = spc.idp_for(metadata=mds, top_only_use_keys_in_metadata=scn['flag'], **dict(extra,
+                      endpoints={'single_sign_on_service': [(c10.IDP_SSO['redirect'], env.BINDING_REDIRECT), (c10.IDP_SSO['post'], env.BINDING_POST)]}))
     emb = None if scn['embedded'] == 'none' else scn['embedded']
     doc = c10.request_xml('authn', 'req1', c10.IDP_SSO['post'], env.ts(spc.now() - 5), sb.signature_template('req1', 'sha256', embed_cert=emb))
     doc = doc.replace('<saml:Issuer>%s</saml:Issuer>' % env.SP, '<saml:Issuer>%s</saml:Issuer>' % REQ_ISSUER[scn['issuer']], 1)
@@ -72,6 +73,8 @@ def replay(case):
     emb = None if scn['embedded'] == 'none' else scn['embedded']
     a = spc.default_assertion(issuer=issuer)
     r = spc.default_response(issuer=issuer if scn.get('outer', 'same') == 'same' else ISSUER[scn['outer']])
+    if scn.get('respIssuer') == 'absent':
+        r['issuer'] = None
     if scn['level'] == 'assertion':
         a['sig'] = sb.signature_template('a1', 'sha256', embed_cert=emb)
     else:
@@ -88,6 +91,13 @@ def replay(case):
             pass
     obs = spc.observe(sp, doc, env.BINDING_POST, {'id1': '/'})
     obs['doc'] = doc
+    if scn['level'] == 'response':
+        # the signature layer on its own (public API of the security context): does it take the response signature?
+        try:
+            obs['sig_layer'] = 'accept' if sp.sec.correctly_signed_response(doc, require_response_signature=True) else 'reject'
+        except Exception as exc:
+            obs['sig_layer'] = 'reject'
+            obs['sig_layer_exc'] = type(exc).__name__
     return obs
 
 
@@ -107,7 +117,10 @@ def main():
         accepted = obs['verdict'] == 'accept'
         nacc += accepted
         detail = {'case': case, 'observed': dict((k, v) for k, v in obs.items() if k != 'doc'), 'document': obs['doc']}
-        if case['mustReject'] and accepted:
+        if case['mustReject'] and obs.get('sig_layer') == 'accept' and not accepted:
+            chk.violation(scn, 'SecurityContext.correctly_signed_response takes a response signature that no trusted key of the signed '
+                          'element\'s issuer made: %s' % json.dumps(scn, sort_keys=True), detail)
+        elif case['mustReject'] and accepted:
             chk.violation(scn, 'signature made with %s accepted for issuer %s (metadata layout %s, embedded %s, only_use_keys_in_metadata=%s)'
                           % (scn['signKey'], scn['issuer'], scn['layout'], scn['embedded'], scn['flag']), detail)
         elif case['mustAccept'] and not accepted:
